@@ -723,7 +723,9 @@ func (fc *fnCtx) extStmt(s ast.Stmt, rest []ast.Stmt, lvl int) (string, bool, er
 		}
 		declB := &ast.AssignStmt{Lhs: []ast.Expr{b}, Tok: token.DEFINE, Rhs: []ast.Expr{init.Rhs[1]}, TokPos: init.TokPos}
 		stepB := &ast.AssignStmt{Lhs: []ast.Expr{pb}, Tok: token.ASSIGN, Rhs: []ast.Expr{post.Rhs[1]}, TokPos: post.TokPos}
-		body := append(append([]ast.Stmt{}, fc.withScope(x.Body.List)...), stepB)
+		// (no scope marker inside the block: the AST walkers of monadic.go only know real nodes; the names the body
+		// declares are not visible to `b = f(b)` anyway, and loopCore restores the scope after the body)
+		body := append(append([]ast.Stmt{}, x.Body.List...), stepB)
 		loop := &ast.ForStmt{For: x.For,
 			Init: &ast.AssignStmt{Lhs: []ast.Expr{a}, Tok: token.DEFINE, Rhs: []ast.Expr{init.Rhs[0]}, TokPos: init.TokPos},
 			Cond: x.Cond, Post: postA,
